@@ -614,3 +614,119 @@ def eq_const_edges(body, is_x, value):
             if arms[value] not in others:
                 out.append((i, arms[value]))
     return out
+
+
+
+# ------------------------------------------------------------------------------------------------
+# appended: feasible-path variants (core.FA) and value-trace helpers used by the dirtiness-routine rules
+
+def mpt_f(ctx, rid, key, body, A, B, M, ok_detail, bad_detail, incl=True, where_bb=None, require=True, cut_edges=()):
+    """mpt() over *feasible* paths (core.FA): a path that takes a switch arm contradicting the known variant
+    of the switched local (value joined before a re-split) is not a path."""
+    from core import FA
+    fa = FA.of(body)
+    A, B, M = list(A), list(B), set(M)
+    if not A or not B:
+        return ctx.ob(rid, key, not require, where=body.span, detail="anchor missing (from=%d to=%d via=%d): %s" % (len(A), len(B), len(M), bad_detail))
+    p = fa.path(A, B, avoid=frozenset(M), cut_edges=frozenset(cut_edges), incl=incl)
+    ok = p is None and bool(M)
+    return ctx.ob(rid, key, ok, where=ctx.where(body, where_bb if where_bb is not None else (p[-1] if p else A[0])),
+                  detail=ok_detail if ok else bad_detail, witness={"path": p[:25] if p else None})
+
+
+def not_reach_f(ctx, rid, key, body, A, B, ok_detail, bad_detail, avoid=(), incl=True, cut_edges=()):
+    """not_reach() over feasible paths (core.FA)."""
+    from core import FA
+    fa = FA.of(body)
+    p = fa.path(list(A), list(B), avoid=frozenset(avoid), cut_edges=frozenset(cut_edges), incl=incl) if A and B else None
+    return ctx.ob(rid, key, p is None, where=ctx.where(body, p[-1]) if p else body.span,
+                  detail=ok_detail if p is None else bad_detail, witness={"path": p[:25] if p else None})
+
+
+def value_origins(body, local, depth=400, pend=()):
+    """Where does the value of `local` come from?  Backward over whole-local moves/copies, variant payload
+    reads (`x as V.f`), enum aggregates that wrap the value (`Some{x}` met while a `Some.0` read is pending) and
+    `Try::branch`.  Returns [(kind, bb, info)]: ('agg', bb, rvalue) an aggregate built here *is* the value,
+    ('call', bb, term) the value is a call result, ('other', bb, None) anything else (parameter, field, ...).
+    A pending payload read that meets an aggregate of another variant is a dead end (no value flows).
+    `pend` starts the walk inside a wrapper: pend=(("Ok", "0"),) asks for the origins of the Ok payload of `local`."""
+    ba = BA.of(body)
+    out = []
+    seen = set()
+    todo = [(local, tuple(pend))]
+    n = 0
+    while todo and n < depth:
+        n += 1
+        l, pend = todo.pop()
+        if (l, pend) in seen:
+            continue
+        seen.add((l, pend))
+        ds = [d for d in ba.defs.get(l, []) if d[0] in ("stmt", "call", "yield")]
+        if not ds:
+            out.append(("other", None, None))
+        for d in ds:
+            if d[0] == "call":
+                t = d[2]
+                if pend and pend[-1][0] == "Continue" and any(re.fullmatch(r"(<.* as )?core::ops::try_trait::Try>?::branch", p) for p in callee_paths(t)):
+                    a = op_place(t["args"][0])
+                    ty = (t.get("arg_tys") or [""])[0]
+                    if a is not None and not a["p"]:
+                        todo.append((a["l"], pend[:-1] + (("Ok" if ty.startswith("core::result::Result") else "Some", pend[-1][1]),)))
+                        continue
+                out.append(("call", d[1], t) if not pend else ("callpay", d[1], t))
+                continue
+            if d[0] == "yield":
+                out.append(("other", d[1], None))
+                continue
+            rv = d[3]
+            if rv["k"] == "use":
+                p = op_place(rv["op"])
+                if p is None:
+                    out.append(("other", d[1], None))
+                    continue
+                proj = p["p"]
+                np_ = pend
+                ok = True
+                i = 0
+                add = []
+                while i < len(proj):
+                    if proj[i].startswith("as:") and i + 1 < len(proj) and proj[i + 1].startswith("f:"):
+                        add.append((proj[i][3:], proj[i + 1][2:].rsplit(".", 1)[-1]))
+                        i += 2
+                    else:
+                        ok = False
+                        break
+                if not ok:
+                    out.append(("other", d[1], None))
+                    continue
+                # the innermost read is applied first: pending stack top = last element
+                todo.append((p["l"], pend + tuple(reversed(add))))
+            elif rv["k"] == "agg" and rv.get("agg") == "adt":
+                if not pend:
+                    out.append(("agg", d[1], rv))
+                else:
+                    var, fld = pend[-1]
+                    if rv.get("variant") != var:
+                        continue
+                    for f, o in zip(rv.get("fields", []), rv["ops"]):
+                        if f == fld:
+                            q = op_place(o)
+                            if q is not None and not q["p"]:
+                                todo.append((q["l"], pend[:-1]))
+                            else:
+                                out.append(("other", d[1], None))
+            else:
+                out.append(("other", d[1], None))
+    return out
+
+
+def verdict_origins(body, variant, adt="deps::Dirtiness"):
+    """Blocks where a `adt::<variant>` value that the routine returns as `Ok(..)` is built - followed through
+    the locals / Option / Result wrappers a refactor may route the verdict through, and through a Result that is
+    returned as a whole (generalises verdict_returns, which only looks one assignment back): the origins of the
+    Ok payload of the return place."""
+    out = set()
+    for kind, bb, rv in value_origins(body, 0, pend=(("Ok", "0"),)):
+        if kind == "agg" and rv.get("adt") == adt and rv.get("variant") == variant and bb in BA.of(body).live and not body.is_cleanup(bb):
+            out.add(bb)
+    return sorted(out)
